@@ -39,6 +39,19 @@ func shrinkTrace(trace []uint32, test func([]uint32) ([]uint32, bool), budget ti
 				}
 			}
 		}
+		// delete short spans of every size at every position (items of a
+		// generator consume a handful of consecutive choices)
+		for size := 12; size >= 1; size-- {
+			for i := 0; i+size <= len(cur) && time.Now().Before(deadline); {
+				cand := append(append([]uint32(nil), cur[:i]...), cur[i+size:]...)
+				if c, ok := try(cand); ok && len(trim(c)) < len(cur) {
+					cur = trim(c)
+					improved = true
+				} else {
+					i++
+				}
+			}
+		}
 		// zero spans
 		for size := len(cur) / 2; size >= 1; size /= 2 {
 			for i := 0; i+size <= len(cur) && time.Now().Before(deadline); i += size {
